@@ -64,7 +64,34 @@ pub open spec fn submodule_short_test(sm: &StateMachine) -> bool {
     (sm.state is HunkHeader && is_prefix("-Subproject commit "@, sm.line@)) || (sm.state is SubmoduleShort && is_prefix("+Subproject commit "@, sm.line@))
 }
 
+/// utils::path::relativize_path_maybe: the path as shown under --relative-paths; uninterpreted
+pub uninterp spec fn relativized(path: Seq<char>, config: &Config) -> Seq<char>;
+#[verifier::external_body]
+pub fn relativize_path_maybe(path: &mut String, config: &Config)
+    ensures final(path)@ == relativized(old(path)@, config),
+{ unimplemented!() }
+/// what a "Binary files a and b differ" line turns a (non-/dev/null) file name into
+pub open spec fn binary_name(name: Seq<char>, config: &Config) -> Seq<char> {
+    if name == "/dev/null"@ { name } else { relativized(name, config) + " (binary file)"@ }
+}
+pub open spec fn misc_line_test(sm: &StateMachine) -> bool {
+    (sm.source == Source::DiffUnified && is_prefix("Only in "@, sm.line@)) || is_prefix("Binary files "@, sm.line@)
+}
+
 impl<'a> StateMachine<'a> {
+    //@ stub src/delta.rs StateMachine::emit_line_unchanged spec=delta.emit_line_unchanged
+    //@ fn src/handlers/diff_header_misc.rs StateMachine::test_diff_file_missing
+    //@| ensures r == (self.source == Source::DiffUnified && is_prefix("Only in "@, self.line@)),
+    //@ fn src/handlers/diff_header_misc.rs StateMachine::test_diff_is_binary
+    //@| ensures r == is_prefix("Binary files "@, self.line@),
+    //@ fn src/handlers/diff_header_misc.rs StateMachine::handle_diff_header_misc_line
+    //@| requires srcinv(old(self)),
+    //@| ensures !misc_line_test(old(self)) ==> r == Ok::<bool, std::io::Error>(false) && final(self).state == old(self).state && final(self).painter == old(self).painter && final(self).minus_file == old(self).minus_file && final(self).plus_file == old(self).plus_file,  // @C04:misc.line.decline.changes.nothing
+    //@|         r.is_ok() ==> all_lines(&final(self).painter) == all_lines(&old(self).painter),  // @C01:misc.line.keeps.lines
+    //@|         final(self).config == old(self).config && final(self).line == old(self).line && final(self).raw_line == old(self).raw_line,
+    //@|         r.is_ok() && !old(self).config.color_only && is_prefix("Binary files "@, old(self).line@) && !(old(self).minus_file@.len() == 0 && old(self).plus_file@.len() == 0) ==>
+    //@|             final(self).minus_file@ == binary_name(old(self).minus_file@, old(self).config) && final(self).plus_file@ == binary_name(old(self).plus_file@, old(self).config)
+    //@|             && final(self).state == old(self).state && final(self).painter == old(self).painter,  // @C14,C10:binary.files.line.names.both.files.relative.to.the.user.and.marks.them
     //@ stub src/delta.rs StateMachine::should_handle spec=delta.should_handle
     //@ stub src/handlers/diff_header.rs StateMachine::handle_pending_line_with_diff_name spec=diff_header.handle_pending
     //@ stub src/handlers/mod.rs StateMachine::handle_additional_cases spec=diff_header.handle_additional_cases
